@@ -39,7 +39,10 @@ RevealParams ==
   { [t |-> t, size |-> size, len |-> len, secret |-> <<5>>] :
       t \in {0, 1, 7, 8, 20, 34, 39, 65535},
       size \in {0, 1, 15, 16, 17, 32, 48},
-      len \in (0..8) \cup {20, 21, 22, 36, 37, 38, 52, 53, 54, 1023, 1024, 65535} }
+      len \in (0..24) \cup {36, 37, 38, 52, 53, 54, 1023, 1024, 65535} }
+  \cup
+  \* every payload length 0..30 handed to every per-type reader (two blocks: 30 payload octets available)
+  { [t |-> t, size |-> 32, len |-> len, secret |-> <<5>>] : t \in AttributeTypes, len \in 6..36 }
 
 PlainFor(p) ==
   \* first two octets = the original-length field, then a payload most kinds accept
